@@ -141,6 +141,8 @@ func FuzzInfluxParse(f *testing.F) {
 	f.Add([]byte("m a_last=1,b_last=2\n# comment\nm,k=v x_sum=1i 1700000000000\n"), uint8(1))
 	f.Add([]byte(`w\ x,t\,1=a\=b f\ last=1e3,g_first=t,h="str" 1700000000000`), uint8(64))
 	f.Add([]byte("0 0=i"), uint8(1)) // found by this target: see TestRegression_InfluxBareIntegerSuffixPanics
+	// backslash runs of both parities before every separator kind and at the end of tokens
+	f.Add([]byte(`svc\\,dir=C:\\,p\\\,q=\\\ srv\\\\,k\\=v\=w io\\=1,f\\\=x_last=2 1700000000000`+"\n"+`a\\\\\,b\=c\\ v\\\\_sum=3 1700000000001`), uint8(3))
 	f.Fuzz(func(t *testing.T, body []byte, nShards uint8) {
 		req, err := http.NewRequest(http.MethodPost, "http://broker/api/v1/write?db=db&precision=ms", bytes.NewReader(body))
 		if err != nil {
